@@ -422,7 +422,7 @@ func TestC25(t *testing.T) {
 	c.RunReplays()
 	roms := c24Corpus()
 
-	c.Rapid("interleave", 2400, 60000, func(rt *rapid.T) {
+	c.Rapid("interleave", 2400, 30000, func(rt *rapid.T) {
 		n := rapid.IntRange(2, 3).Draw(rt, "n")
 		var cas c25Case
 		for i := 0; i < n; i++ {
@@ -457,7 +457,7 @@ func TestC25(t *testing.T) {
 		}
 	})
 
-	c.Rapid("frames", 192, 6000, func(rt *rapid.T) {
+	c.Rapid("frames", 192, 3000, func(rt *rapid.T) {
 		n := rapid.IntRange(2, 3).Draw(rt, "n")
 		cas := c25Frames{Concurrent: rapid.Bool().Draw(rt, "concurrent")}
 		for i := 0; i < n; i++ {
